@@ -13,7 +13,7 @@ CHECKS = {
          NOTE_COMMON, "Lean 4 proof over hand-written model + generated constants; differential correspondence check", "DESIGN.md §5 C01"),
  "C06": ("Kernel-checked Lean theorem C06_withScaleRound: the digit-level model of with_scale_round (three regimes, carry loop, round_pair table regenerated from the "
          "source on every run) equals the declarative rounding for every decimal, target scale and mode; corollaries: exact scale, exact extension, representable inputs "
-         "unchanged, neighbour property, mode table on the whole tail, with_scale = Down, round(n) = default mode, all 4200 round_pair arguments. Tied to the code by exact "
+         "unchanged, neighbour property, mode table on the whole tail, with_scale = Down, round(n) = default mode, all 4200 round_pair arguments; C06_mode_meaning: over Q the result is the textbook function of the exact value x = d * 10^s - Floor = floor(x), Ceiling = ceil(x), Down = truncation, Up = away from zero, HalfUp / HalfDown = nearest with ties away from / toward zero, HalfEven = a nearest integer that is even at a tie (Mathlib Int.floor / Int.ceil). Tied to the code by exact "
          "(int, scale) comparison on the quantifier's small scope and structured random long inputs.",
          NOTE_COMMON, "Lean 4 proof (digit-level refinement to declarative rounding) + translated round_pair table + differential correspondence", "DESIGN.md §5 C06"),
  "C07": ("Kernel-checked Lean theorems: with_precision_round (and every Context / reference entry point, which call it) equals the declarative rounding at the p-th "
@@ -98,10 +98,9 @@ CHECKS = {
  "C10": ("Lean model of the repaired impl_sqrt (even total scale, floor square root, sticky digit, then with_precision_round = the declarative rounding proved in C07) and of the five entry "
          "points. Kernel-checked: the sticky lemma (10*isqrt(N)+1 lies on the same side of every multiple of ten as 10*sqrt(N), so rounding left of the sticky digit takes the decisions of the true "
          "root), evenness of the shifted scale, the exact branch, negative -> None, zero -> zero, copy-sign = abs with sign, and C10_implSqrt_spec (whatever impl_sqrt returns IS the declarative precision rounding of the sticky-extended floor root - with C10_sticky: of the real root). Every sampled result of the real code is judged by an exact certificate "
-         "(squares of the rounding boundaries, all modes, carries to a new digit, power-of-ten boundaries) and compared exactly with the model. Composition into a single theorem "
-         "sqrt_spec is listed as open in DESIGN.md.",
-         "PARTIAL: the headline statement is established per sampled input by the certificate, and structurally by the lemmas named. Trusted: BigUint::sqrt = floor sqrt, Lean kernel, extractor, harness/driver.",
-         "Lean 4 lemmas (sticky digit) + exact rounding certificate oracle + differential correspondence; partial proof", "DESIGN.md §5 C10"),
+         "(squares of the rounding boundaries, all modes, carries to a new digit, power-of-ten boundaries) and compared exactly with the model. C10_sqrt_real states the property over the reals: for an inexact root the result's integer is Mathlib's Real.sqrt(n * 10^-scale), scaled to the result's own last digit, rounded as the mode says (floor / ceiling / nearest; no tie is possible); the exact case is C10_exact_branch.",
+         "Modelled rather than verified: BigUint::sqrt = floor square root (Nat.sqrt in the model; the correspondence compares every result). Trusted: Lean kernel, Mathlib, extractor, harness/driver.",
+         "Lean 4 proof (sticky digit, assembly, real-number reading) + exact rounding certificate oracle + differential correspondence", "DESIGN.md §5 C10"),
  "C11": ("Lean model of the repaired impl_cbrt (scale made divisible by three through the div_rem sign cases, floor cube root, exactness flag, trimming, round_pair on the first discarded digit with "
          "the translated table) and entry point. Kernel-checked for all inputs: C11_icbrt_floor (the bisection is the floor cube root), C11_decisions (the comparisons the rounding makes - tail zero, "
          "below / at the half-way point - are exactly those of the REAL cube root against the kept value and the half-way point), C11_code_rounding (the inline round_pair with its guarded "
@@ -109,8 +108,8 @@ CHECKS = {
          "-cbrt(x) under the mirrored mode), C11_implCbrt_spec (the assembled statement), zero case. Every sampled result of the real code is additionally judged by an exact certificate (cubes of the rounding boundaries, Floor/Ceiling on the "
          "signed value) and compared exactly with the model.",
          "C11_implCbrt_spec assembles them: for every non-zero magnitude, scale, precision, mode and sign the result is the floor root cut after p digits (at least four digits are dropped, "
-         "icbrt_digits) incremented exactly when roundUpM says so on the virtual tail, at one third of the shifted scale. What remains informal is only the reading of those integer comparisons as "
-         "'the real cube root rounded' (no real numbers in the development). Trusted: nth_root(3) = floor cube root as modelled (bisection; proved to be the floor root), Lean kernel, extractor, harness/driver.",
+         "icbrt_digits) incremented exactly when roundUpM says so on the virtual tail, at one third of the shifted scale. C11_cbrt_real states it over the reals: for ANY real c >= 0 with c^3 = n * 10^-scale the result's magnitude is c, scaled to the result's own last digit, rounded as mode and sign dictate (inexact case; no tie possible). "
+         "Trusted: nth_root(3) = floor cube root as modelled (bisection; proved to be the floor root), Lean kernel, extractor, harness/driver.",
          "Lean 4 proof (floor root, true-root decisions, inline rounding = declarative rounding, scale, sign mirror) + exact rounding certificate oracle + differential correspondence", "DESIGN.md §5 C11"),
  "C12": ("PARTIAL BY NATURE. Kernel-checked for all inputs: the Newton step is exact and squares the residual (1 - x r' = (1 - x r)^2, r' <= 1/x), negation commutes with the reciprocal under the "
          "mirrored mode (C12_neg_mirror), sign copying, zero/one shortcuts. NOT proved (stated as the proposition C12_inverse_full): termination for every input/guess and the one-unit bound on exit "
@@ -125,7 +124,7 @@ CHECKS = {
          "That gap is closed per sampled input: every result of the real code is judged against a rational enclosure of e^x computed in outward-rounded interval arithmetic (scaling and squaring, "
          "Taylor partial sums with remainder bound) - strictly positive, configured digit count, within one unit of the last digit - and compared exactly with the model; ordered pairs check the "
          "two-ulp order property.",
-         "Trusted: the e^x enclosure oracle (derivation stated in Spec/ExpEnclosure.lean, soundness not yet a Lean theorem), Lean kernel, extractor, harness/driver. The headline bound holds per sampled input only.",
+         "The oracle itself is verified: C13_enclosure_sound proves that the interval it computes contains Real.exp x (Mathlib) for EVERY decimal argument and working precision (Taylor partial sums with the remainder bounded by the last term for y <= 1/2, outward-rounded fixed point, j squarings, reciprocal), and C13_oracle_accepts_only_one_ulp that an accepted result is within one unit in the last place of e^x. Trusted: Lean kernel, Mathlib, extractor, harness/driver. The headline bound is still established per sampled input (by a verified oracle), not for every x.",
          "Lean 4 executable model + interval-arithmetic oracle + differential correspondence; partial proof", "DESIGN.md §5 C13"),
  "C14": ("Kernel-checked Lean theorems: for ALL f32 and f64 bit patterns the model of try_parse_from_f32/f64 (normal path with trailing-zero reduction and powers of five, subnormal routines with the "
          "multi-limb constants regenerated from the source, +-0) denotes exactly the IEEE value (-1)^s m 2^e, NaN/inf give errors (C14_ofF32_exact, C14_ofF64_exact, C14_nan_inf); the limb constants "
